@@ -109,6 +109,7 @@ type h1Origin struct {
 	ln      net.Listener
 	mu      sync.Mutex
 	scripts map[string]*h1Script
+	accepts int // connections accepted so far
 }
 
 func newH1Origin() (*h1Origin, error) {
@@ -123,6 +124,9 @@ func newH1Origin() (*h1Origin, error) {
 			if err != nil {
 				return
 			}
+			o.mu.Lock()
+			o.accepts++
+			o.mu.Unlock()
 			go o.handle(c)
 		}
 	}()
@@ -252,6 +256,8 @@ type exSpec struct {
 	Expect   bool        `json:"expect,omitempty"`
 	ReadBuf  int         `json:"read_buf"`
 	Retry    bool        `json:"retry,omitempty"`
+	Warm     bool        `json:"warm_up,omitempty"`    // a GET with its own request-level dumper goes first on the same client / connection
+	WantErr  bool        `json:"want_error,omitempty"` // the scripted exchange ends in an error (reset upload)
 	Resps    []respSpec  `json:"resps"`
 	Shape    string      `json:"shape"`
 	body     []byte
@@ -413,6 +419,10 @@ func genExchange(rng *hk.Rand) exSpec {
 		e.Resps[0].Truncate = final.BodyLen / 2
 		shape += "+truncated"
 	}
+	if rng.Chance(20) {
+		e.Warm = true
+		shape += "+warm"
+	}
 	if e.ReadBuf != 0 {
 		shape += fmt.Sprintf("+rb%d", e.ReadBuf)
 	}
@@ -421,6 +431,17 @@ func genExchange(rng *hk.Rand) exSpec {
 		e.Shape = "plain"
 	}
 	return e
+}
+
+// warmResp: what the origins answer to the warm-up request
+var warmResp = respSpec{Status: 200, Framing: "cl", Headers: [][2]string{{"X-Warm", "1"}, {"Content-Type", "text/plain; charset=utf-8"}}, body: []byte("warm-ok"), BodyLen: 7}
+
+// scriptResps: the responses the origin serves for one run, in order
+func scriptResps(ex exSpec) []respSpec {
+	if ex.Warm {
+		return append([]respSpec{warmResp}, ex.Resps...)
+	}
+	return ex.Resps
 }
 
 // ---------- running one side of a pair ----------
@@ -580,7 +601,10 @@ func (w *wroteCounter) waitFor(idx int) {
 // envTrouble: the dump-off run did not end the way the scripted exchange ends (only a truncated
 // body gives an error, "unexpected-eof"), or the dump-on run hit the watchdog / a timeout while
 // the dump-off run did not: repeat before believing it.
-func envTrouble(off, on runOut) bool {
+func envTrouble(ex exSpec, off, on runOut) bool {
+	if ex.WantErr {
+		return off.Hang || off.Res.Err == "" || off.Res.Err == "timeout"
+	}
 	bad := func(e string) bool { return e != "" && e != "unexpected-eof" }
 	slow := func(x runOut) bool { return x.Hang || x.Res.Err == "timeout" }
 	return off.Hang || bad(off.Res.Err) || (slow(on) && !slow(off))
@@ -621,6 +645,23 @@ func runClient(c *req.Client, url string, ex exSpec, id string, cfg *dumpCfg, wc
 		rq.SetBody(io.MultiReader(bytes.NewReader(ex.body))) // no WriterTo, unknown length
 	}
 	applyDump(c, rq, cfg, s)
+	if ex.Warm {
+		// same client, same connection afterwards; its own request-level dumper (level 2) must see
+		// this exchange only, the main request's dumper must see nothing of it
+		wr := c.R().SetHeader("X-Case", id)
+		wr.SetContext(httptrace.WithClientTrace(context.Background(), &httptrace.ClientTrace{
+			WroteRequest: func(httptrace.WroteRequestInfo) { wc.wrote() },
+		}))
+		if cfg != nil {
+			wr.EnableDumpTo(&tagW{s: s, d: 2, id: writerID(2, slotOut)})
+		}
+		func() {
+			defer func() { recover() }()
+			if resp, err := wr.Get(warmURL(url)); err == nil && resp != nil {
+				resp.Bytes()
+			}
+		}()
+	}
 	var out runOut
 	type rr struct {
 		resp *req.Response
@@ -655,9 +696,19 @@ func runClient(c *req.Client, url string, ex exSpec, id string, cfg *dumpCfg, wc
 	return out
 }
 
+// warmURL: same origin, path /warm
+func warmURL(u string) string {
+	i := strings.Index(u, "://")
+	j := strings.Index(u[i+3:], "/")
+	if j < 0 {
+		return u + "/warm"
+	}
+	return u[:i+3+j] + "/warm"
+}
+
 func h1Run(o *h1Origin, id string, ex exSpec, cfg *dumpCfg) (runOut, *h1Script) {
 	wc := newWroteCounter()
-	sc := o.register(id, ex.Resps, wc.waitFor)
+	sc := o.register(id, scriptResps(ex), wc.waitFor)
 	addr := o.ln.Addr().String()
 	c := req.C().SetDial(func(ctx context.Context, network, _ string) (net.Conn, error) {
 		var d net.Dialer
@@ -818,17 +869,29 @@ func h1Pairs(r *hk.Run, rng *hk.Rand, count int) {
 		// the last attempt is judged
 		var off, on runOut
 		var scOff, scOn *h1Script
+		reusedConn := false
 		for attempt := 0; attempt < 3; attempt++ {
 			id := fmt.Sprintf("h1-%d-%d", i, attempt)
 			off, scOff = h1Run(o, id, ex, nil)
+			o.mu.Lock()
+			a0 := o.accepts
+			o.mu.Unlock()
 			on, scOn = h1Run(o, id, ex, &cfg)
-			if !envTrouble(off, on) {
+			o.mu.Lock()
+			if ex.Warm && o.accepts-a0 == 1 && len(scOn.obs) >= 2 {
+				reusedConn = true
+			}
+			o.mu.Unlock()
+			if !envTrouble(ex, off, on) {
 				break
 			}
 			r.Count("h1.retried-pair")
 		}
 		if debugSlow(off, on) {
 			fmt.Fprintf(debugW, "slow h1 %s %s off=%v on=%v %s/%s\n", ex.Shape, cfg.shape(), off.Elapsed, on.Elapsed, off.Res.Err, on.Res.Err)
+		}
+		if reusedConn {
+			r.Count("h1.warm-up+main-on-one-connection")
 		}
 		r.Count("h1.shape=" + ex.Shape)
 		r.Count("h1.method=" + ex.Method)
@@ -859,9 +922,15 @@ func h1Pairs(r *hk.Run, rng *hk.Rand, count int) {
 		var coqX []string
 		var hps []h1Parts
 		pl := &pool{}
+		resps := scriptResps(ex)
 		for k, ob := range obOn {
 			final := k == len(obOn)-1
-			p := h1PartsOf(ob, ex.Resps[k], ex.Method, on.Res.Body, final, on.Res.Err)
+			method := ex.Method
+			if ex.Warm && k == 0 {
+				method, final = "GET", false
+			}
+			p := h1PartsOf(ob, resps[k], method, on.Res.Body, final, on.Res.Err)
+			p.parts.Warm = ex.Warm && k == 0
 			xs = append(xs, p.parts)
 			hps = append(hps, p)
 			pl.add(p.hdr)
@@ -871,7 +940,7 @@ func h1Pairs(r *hk.Run, rng *hk.Rand, count int) {
 			pl.add(p.parts.RespHeaderPre)
 			pl.add(p.parts.RespHeader)
 			pl.add(p.parts.RespBody)
-			pl.add(ex.Resps[k].body)
+			pl.add(resps[k].body)
 		}
 		for k, ob := range obOn {
 			p := hps[k]
@@ -887,9 +956,7 @@ func h1Pairs(r *hk.Run, rng *hk.Rand, count int) {
 			failOnce(r, hk.Failure{Sig: "faithful:" + which + ":" + sigBase, What: "content of a dump writer is not exactly the selected parts routed to it", Input: in, Got: g, Want: w})
 		}
 		nt := cfg.anyOn() && (ex.BodyLen > 0 || ex.Resps[len(ex.Resps)-1].BodyLen > 0 || len(ex.Resps) > 1 || strings.Contains(ex.Shape, "longhdr") || ex.ReadBuf != 0)
-		r.Add(hk.Case{Coq: pl.wrap(fmt.Sprintf("ExchCase %s %s %s %s", coqOptOpt(cfg.Client, 0), coqOptOpt(cfg.Request, 1), hk.CoqList(coqX), coqObs(on.Sink, pl))),
-			Desc: map[string]interface{}{"kind": "h1", "exchange": ex, "dump": cfg}},
-			"h1|"+keyOf(in), nt)
+		emitExch(r, cfg, coqX, ex.Warm, on.Sink, pl, map[string]interface{}{"kind": "h1", "exchange": ex, "dump": cfg}, "h1|"+keyOf(in), nt)
 	}
 }
 
